@@ -7,6 +7,8 @@ def oracle(case, out):
     stacks, nid = {}, {}
     for i, (l, o) in enumerate(zip(case, out)):
         t = l.split()
+        if "LEAK" in o:
+            return "after every thread of the script has exited %s heap block(s) obtained by the scope machinery are still allocated" % o.split("LEAK:")[1]
         if len(t) < 3:
             continue
         tid, op = t[1], t[2]
@@ -80,6 +82,22 @@ def gen_thread(r, tid, deep):
     return lines
 
 
+def boundary_cases():
+    """nest D deep, end the scope sitting just before / at / after a boundary of the factory's nodes (64, 194, 454 scopes)
+    while the deeper ones are live, look at the innermost scope, go on"""
+    out = []
+    for D in (70, 200, 300, 460, 500):
+        for k in (62, 63, 64, 65, 66, 192, 193, 194, 195, 196, 452, 453, 454, 455, 456):
+            if k >= D: continue
+            lines = ["sc 0 begin 0" for _ in range(D)]
+            lines += ["sc 0 end %d" % k, "sc 0 last", "sc 0 begin 16", "sc 0 begin 0", "sc 0 last", "sc 0 end %d" % (k - 1), "sc 0 last",
+                      "sc 0 begin 0", "sc 0 last"]
+            lines += ["sc 0 exit"] if (D + k) % 2 else ["sc 0 end 0", "sc 0 last"]
+            lines.append("sc end")
+            out.append(lines)
+    return out
+
+
 def gen_case(r, deep):
     nth = 1 if r.random() < 0.7 else r.randrange(2, 5)
     per = [gen_thread(r, t, deep) for t in range(nth)]
@@ -113,6 +131,7 @@ def run(ctx):
             cases.append(gen_case(ctx.rng, deep=False))
         for _ in range(40 if quick else 800):
             cases.append(gen_case(ctx.rng, deep=True))
+        cases += boundary_cases()
     depths = [max((sum(1 for l in c[:i] if " begin " in l) for i in range(len(c))), default=0) for c in cases[:50]]
     ctx.extra_cov["max_begins_in_sampled_cases"] = max(depths) if depths else 0
     ctx.correspond("scope-scripts", exe, cases, oracle=oracle, nontrivial=lambda c: len(c) >= 4, timeout=1200)
